@@ -202,13 +202,14 @@ impl ChunkIndex {
                 if let Some(ChunkLocation { offsets, size }) = self.get(hash) {
                     // For each chunk present in both target and source we compare the offsets and remove
                     // any offset which is present in both from the target.
+                    let offsets_before = cd.offsets.len();
                     offsets.iter().for_each(|remove_offset| {
                         cd.offsets
                             .iter()
                             .position(|offset| *offset == *remove_offset)
                             .map(|pos| cd.offsets.remove(pos));
                     });
-                    let offsets_in_place = offsets.len() - cd.offsets.len();
+                    let offsets_in_place = offsets_before - cd.offsets.len();
                     num_alread_in_place += offsets_in_place;
                     total_size += (*size * offsets_in_place) as u64;
                     if cd.offsets.is_empty() {
